@@ -90,6 +90,8 @@ def zz(it, st, args, fname):
         return ret(st, nd_bv(st, py_str(args[0]), 8))
     if name == 'NondetBool':
         nm = nd_name(st, py_str(args[0]))
+        if nm in FIXED:
+            return ret(st, bool(int(FIXED[nm])))
         v = z3.Bool(nm)
         st.ndvals[nm] = v
         return ret(st, v)
@@ -462,14 +464,39 @@ def uf_bytes(it, name, vals, outbits):
         it.uf[key] = f
     if n == 0:
         return f
+    # link the UF to the real function on the concrete inputs of the same length evaluated so far
+    # (a byte list that is only semantically concrete, e.g. after a merge, must get the same value)
+    syms = it.uf.setdefault('SYMAPP', set())
+    if key not in syms:
+        syms.add(key)
+        for cv, val in it.uf.setdefault('CONC', {}).get(key, {}).items():
+            it.ctx.axioms.append(f(*[z3.BitVecVal(x, 8) for x in cv]) == z3.BitVecVal(val, outbits))
     return f(*[bv(x, 8) for x in vals])
+
+
+def uf_concrete(it, name, vals, value, outbits):
+    """record that the real function was evaluated on concrete bytes `vals` (result `value`, an int)"""
+    n = len(vals)
+    if n == 0:
+        return
+    key = (name, n)
+    tab = it.uf.setdefault('CONC', {}).setdefault(key, {})
+    cv = tuple(int(x) for x in vals)
+    if cv in tab:
+        return
+    tab[cv] = value
+    if key in it.uf.setdefault('SYMAPP', set()):
+        f = it.uf[key]
+        it.ctx.axioms.append(f(*[z3.BitVecVal(x, 8) for x in cv]) == z3.BitVecVal(value, outbits))
 
 
 @I.reg('hash/crc32.Checksum')
 def crc32_checksum(it, st, args, fname):
     vals = it.slice_values(st, args[0], 'crc32 input')
     if all(not is_sym(x) for x in vals):
-        return ret(st, crc32c(bytes(vals)))
+        c = crc32c(bytes(vals))
+        uf_concrete(it, 'UF_crc32c', vals, c, 32)
+        return ret(st, c)
     return ret(st, uf_bytes(it, 'UF_crc32c', vals, 32))
 
 
